@@ -46,7 +46,9 @@ namespace GeographicLib {
       throw GeographicErr("Illegal zone requested " + Utility::str(setzone));
     if (setzone >= MINZONE || setzone == INVALID)
       return setzone;
-    if (isnan(lat) || isnan(lon)) // Check if lat or lon is a NaN
+    // Check if lat or lon is a NaN (or infinite, which would be converted to
+    // an int below)
+    if (!(isfinite(lat) && isfinite(lon)))
       return INVALID;
     if (setzone == UTM || (lat >= -80 && lat < 84)) {
       int ilon = int(floor(Math::AngNormalize(lon)));
